@@ -36,6 +36,7 @@ type Case struct {
 	Prev     int    `json:"prev"`     // bitmask: endpoints whose EARLIER listing contained M (then replaced)
 	Spelling string `json:"spelling"` // exact | upper | mixed | latest-added | latest-dropped
 	Route    string `json:"route"`    // proxy | provider | anthropic
+	BigBody  bool   `json:"big_body"` // request body padded above the 1 MiB inspection limit
 }
 
 type rigT struct {
@@ -187,6 +188,11 @@ func runCase(c Case) []ev.Violation {
 	default:
 		path, body = "/olla/anthropic/v1/messages", fmt.Sprintf(`{"model":%q,"max_tokens":8,"messages":[{"role":"user","content":"hi"}]}`, requested)
 	}
+	if c.BigBody {
+		// a long user message (e.g. an inlined document or image) pushes the body over 1 MiB
+		pad := strings.Repeat("lorem ipsum dolor sit amet ", 45000)
+		body = strings.Replace(body, `"content":"hi"`, `"content":"hi `+pad+`"`, 1)
+	}
 	req, _ := http.NewRequest("POST", r.s.BaseURL+path, strings.NewReader(body))
 	req.Header.Set("Content-Type", "application/json")
 	resp, err := client.Do(req)
@@ -215,6 +221,9 @@ func runCase(c Case) []ev.Violation {
 	rec.Class("spelling=" + c.Spelling)
 	if hadPrev {
 		rec.Class("history=replace-with-fewer")
+	}
+	if c.BigBody {
+		rec.Class("body>1MiB")
 	}
 	decision := resp.Header.Get("X-Olla-Routing-Decision")
 	desc := fmt.Sprintf("engine=%s strategy=%s fallback=%s refresh_on_miss=%v route=%s; %d endpoints, healthy=%v, listing M=%v (earlier also %v), model registered as %q requested as %q -> status %d, decision header %q, served by %d (contacted %d), body %q",
@@ -292,7 +301,12 @@ func runCase(c Case) []ev.Violation {
 	if len(vs) > 0 && hadPrev && len(judge(L|P)) == 0 {
 		// everything observed is exactly what a catalogue that still attributes M to the endpoints
 		// that dropped it would produce: one root cause (C10's stale attribution), one signature
-		vs = []ev.Violation{{Sig: "stale-listing-after-replace-with-fewer", Detail: "routing acted on a listing the endpoint has replaced: " + desc + " [first symptom: " + vs[0].Sig + "]"}}
+		return []ev.Violation{{Sig: "stale-listing-after-replace-with-fewer", Detail: "routing acted on a listing the endpoint has replaced: " + desc + " [first symptom: " + vs[0].Sig + "]"}}
+	}
+	if len(vs) > 0 && c.BigBody {
+		// one root cause: the body inspector gives up above 1 MiB, so no model is attached to the
+		// routing profile and model routing is skipped altogether
+		return []ev.Violation{{Sig: "model-routing-skipped-for-large-body/" + c.Route, Detail: "request body above the 1 MiB inspection limit: " + desc + " [first symptom: " + vs[0].Sig + "]"}}
 	}
 	if len(vs) == 0 {
 		rec.Sample(map[string]any{"case": c, "status": resp.StatusCode, "served": served, "decision": decision})
@@ -335,6 +349,7 @@ func genCase(t *rapid.T) Case {
 		Spelling: rapid.SampledFrom([]string{"exact", "exact", "exact", "upper", "mixed", "latest-added", "latest-dropped"}).Draw(t, "spelling"),
 		Route:    rapid.SampledFrom([]string{"proxy", "proxy", "provider", "anthropic"}).Draw(t, "route"),
 	}
+	c.BigBody = rapid.IntRange(0, 9).Draw(t, "big") == 0
 	if rapid.IntRange(0, 2).Draw(t, "hist") == 0 {
 		c.Prev = rapid.IntRange(0, (1<<n)-1).Draw(t, "prev")
 	}
